@@ -102,6 +102,27 @@ def chain_family():
                 rule = {"two-objarr-1": "two-objarr", "two-objarr-1b": "two-objarr", "objarr1-plus-obj": "objarr-plus-obj"}.get(rule, rule)
                 out.append((case, {"rule": rule, "where": where, "iface": lv[level]["name"], "in_main_chain": True, "dir": d,
                                    "level": level, "small": False, "family": "chain"}))
+    # constants one step outside their range, in every spelling, at file scope, inside an
+    # interface of the main file and inside a base interface of an included file
+    for bits in (8, 16, 32, 64):
+        for signed in (True, False):
+            t = ("int" if signed else "uint") + str(bits)
+            hi = (1 << (bits - 1)) - 1 if signed else (1 << bits) - 1
+            lo = -(1 << (bits - 1)) if signed else 0
+            lits = [str(hi + 1), hex(hi + 1), str(lo - 1), "-" + hex(-(lo - 1))]
+            for li, lit in enumerate(lits):
+                place = ("file", "interface", "included-base")[(bits // 8 + li + int(signed)) % 3]
+                const = {"k": "const", "type": t, "name": "ZRANGE", "value": lit}
+                if place == "file":
+                    files = [{"path": "main.idl", "nodes": [const, {"k": "interface", "name": "IK", "base": None, "members": []}]}]
+                elif place == "interface":
+                    files = [{"path": "main.idl", "nodes": [{"k": "interface", "name": "IK", "base": None, "members": [const]}]}]
+                else:
+                    files = [{"path": "main.idl", "nodes": [{"k": "include", "path": "lim.idl"}, {"k": "interface", "name": "IK", "base": "ILim", "members": []}]},
+                             {"path": "lim.idl", "nodes": [{"k": "interface", "name": "ILim", "base": None, "members": [const]}]}]
+                out.append(({"id": f"C09-range-{t}-{li}", "files": files, "main": "main.idl", "incdirs": []},
+                            {"rule": "const-range", "type": t, "value": lit, "where": "main" if place != "included-base" else "included",
+                             "scope": place, "in_main_chain": True, "family": "range"}))
     # duplicates across levels: a method / error of the leaf repeats a name of the root
     for kind in ("dup-method", "dup-const-error"):
         lv = [{"k": "interface", "name": nm_, "base": b_, "members": []} for nm_, b_ in (("IRoot", None), ("IMid", "IRoot"), ("ILeaf", "IMid"))]
